@@ -851,7 +851,16 @@ func (ev *Eval) callExpr(x *ast.CallExpr) *Val {
 		retype(c, tn)
 		return c
 	}
-	// spec / pred / ghost
+	// spec / pred / ghost (optionally qualified by package name)
+	if k := strings.Index(name, "."); k >= 0 {
+		for _, tp := range f.eng.allTypes {
+			if tp.Name() == name[:k] {
+				if sp, ok := f.eng.cs.Specs[tp.Path()+"."+name[k+1:]]; ok {
+					return ev.specCall(sp, x)
+				}
+			}
+		}
+	}
 	if sp := f.eng.lookupSpec(ev.pkg, name); sp != nil {
 		return ev.specCall(sp, x)
 	}
@@ -900,6 +909,27 @@ func objectID(v *Val) string {
 		return v.T
 	}
 	return "0"
+}
+
+// resolveType turns a type expression of the contract language into a Go type.
+func (ev *Eval) resolveType(e ast.Expr) types.Type {
+	switch x := e.(type) {
+	case *ast.Ident, *ast.SelectorExpr:
+		return ev.typeName(e)
+	case *ast.StarExpr:
+		if t := ev.resolveType(x.X); t != nil {
+			return types.NewPointer(t)
+		}
+	case *ast.ArrayType:
+		if x.Len == nil {
+			if t := ev.resolveType(x.Elt); t != nil {
+				return types.NewSlice(t)
+			}
+		}
+	case *ast.ParenExpr:
+		return ev.resolveType(x.X)
+	}
+	return nil
 }
 
 func (ev *Eval) typeName(e ast.Expr) types.Type {
@@ -1034,12 +1064,15 @@ func (ev *Eval) recSpecCall(sp *SpecFn, args []*Val) *Val {
 			case "bool":
 				v = &Val{K: KBool, T: gen(Leaf{Sort: "Bool"})}
 			default:
-				tv, err := types.Eval(f.eng.fset, pkg, token.NoPos, ts)
-				if err != nil || tv.Type == nil {
+				sub := ev.sub()
+				sub.pkg = pkg
+				sub.bound = map[string]*Val{}
+				pt := sub.resolveType(p.Type)
+				if pt == nil {
 					ev.fail("spec %s: cannot resolve parameter type %s", sp.Name, ts)
 					return vInt("0", nil)
 				}
-				v = build(tv.Type, gen)
+				v = build(pt, gen)
 			}
 			params[p.Name] = v
 		}
@@ -1247,4 +1280,52 @@ func (ev *Eval) evalConj(e ast.Expr) []Conj {
 		}
 	}
 	return []Conj{{exprString(e), ev.evalBool(e)}}
+}
+
+// scopeHas reports whether every free identifier of e resolves at ev.pos.
+func (ev *Eval) scopeHas(e ast.Expr) bool {
+	ok := true
+	ast.Inspect(e, func(n ast.Node) bool {
+		switch x := n.(type) {
+		case *ast.SelectorExpr:
+			ast.Inspect(x.X, func(m ast.Node) bool {
+				if id, isId := m.(*ast.Ident); isId {
+					if !ev.identKnown(id.Name) && ev.findImport(id.Name) == nil {
+						ok = false
+					}
+				}
+				return true
+			})
+			return false
+		case *ast.FuncLit:
+			return false // bound variables
+		case *ast.CallExpr:
+			for _, a := range x.Args {
+				if !ev.scopeHas(a) {
+					ok = false
+				}
+			}
+			return false
+		case *ast.Ident:
+			if !ev.identKnown(x.Name) {
+				ok = false
+			}
+		}
+		return true
+	})
+	return ok
+}
+
+func (ev *Eval) identKnown(name string) bool {
+	switch name {
+	case "true", "false", "nil", "iter", "rangeindex":
+		return true
+	}
+	if ev.isValueIdent(name) {
+		return true
+	}
+	if ev.pkg != nil && ev.pkg.Scope().Lookup(name) != nil {
+		return true
+	}
+	return types.Universe.Lookup(name) != nil
 }
